@@ -1225,6 +1225,22 @@ def rule_operands(crate, dispositions=None):
                         continue
                     if (side == "lhs" and kdp < d) or (side == "rhs" and kdp <= d):
                         bad.append(kd.replace("BinaryOperator:", ""))
+                # calls of the temperature functions are PRINTED as `x -> °C` (an expression at the conversion level):
+                # a call that is printed bare must not be one of those, unless the conversion level binds tighter here
+                conv_d = op_depth.get("ConvertTo")
+                if conv_d is not None and ({"FunctionCall", "CallableCall"} & bare) and ((side == "rhs" and conv_d <= d) or (side == "lhs" and conv_d < d)):
+                    tested = False
+                    for c in walk(a["body"]):
+                        if c.get("k") == "Call" and c.get("args") and local_of(c["args"][0]) == sid:
+                            fl = local_of(c["f"]) if c["f"].get("k") == "Path" else None
+                            if fl in closures and any(y.get("k") == "Call" and (callee(y) or "").endswith("is_printed_in_sugar_form") for y in walk(closures[fl]["body"])):
+                                tested = True
+                    n += 1
+                    skey = "binop:%s:%s:sugar" % (op, side)
+                    if tested:
+                        out.ok(skey, af, al, "calls printed in their sugar form (`x -> °C`) are singled out before the %s operand of %s is printed bare" % (side, op))
+                    else:
+                        out.violation(skey, af, al, "the %s operand of `%s` is printed bare when it is a function call, but calls of the temperature functions are printed in the sugar form `x -> °C`, which is a conversion: `1 -> °C(300 K)` is echoed as `1 ➞ 300 kelvin -> °C` and read back as `(1 ➞ 300 K) -> °C`" % (side, op))
                 key = "binop:%s:%s" % (op, side)
                 if not bad:
                     out.ok(key, af, al, "%s operand of %s: bare only for kinds that bind %s" % (side, op, "at least as tightly" if side == "lhs" else "strictly tighter"))
